@@ -54,6 +54,18 @@ func newView(s string) *view {
 
 func (v *view) n() int { return len(v.runes) }
 
+// qs prints like %q for strings of ordinary size and abbreviates the middle of
+// the big strings of strength.go (their cases are replayed from seed and index).
+type qs string
+
+func (s qs) Format(f fmt.State, verb rune) {
+	if len(s) <= 400 {
+		fmt.Fprintf(f, "%q", string(s))
+		return
+	}
+	fmt.Fprintf(f, "%q...(%d bytes in all)...%q", string(s[:120]), len(s), string(s[len(s)-120:]))
+}
+
 // width in bytes of rune i
 func (v *view) bw(i int) int { return v.offs[i+1] - v.offs[i] }
 
@@ -174,6 +186,9 @@ type chk struct {
 	v   *view
 	sfx string // signature suffix ("" or "/hugearg")
 	f   [nFeat]int64
+	// keep, when set, collects every judged result so that it can be judged a
+	// second time at the end of the case (strength.go, engine "kept")
+	keep *[]keptRes
 }
 
 func newChk(c *ev.Case, s string, sfx string) *chk {
@@ -207,9 +222,9 @@ func (k *chk) called(f int) {
 // own signature (a rune was split).
 func (k *chk) mismatch(sig, call, got, want string) bool {
 	if !utf8.ValidString(got) {
-		k.c.Failf(sig+"-splits-rune"+k.sfx, "%s = %q which is not valid UTF-8 (rune-slice definition gives %q)", call, got, want)
+		k.c.Failf(sig+"-splits-rune"+k.sfx, "%s = %q which is not valid UTF-8 (rune-slice definition gives %q)", call, qs(got), qs(want))
 	} else {
-		k.c.Failf(sig+k.sfx, "%s = %q, rune-slice definition gives %q", call, got, want)
+		k.c.Failf(sig+k.sfx, "%s = %q, rune-slice definition gives %q", call, qs(got), qs(want))
 	}
 	return false
 }
@@ -219,13 +234,13 @@ func (k *chk) sub(start, length int) bool {
 	var got string
 	if !k.c.Guard("Sub"+k.sfx, func() { got = strz.Sub(v.s, start, length) }) {
 		if k.c.Logging() {
-			k.c.Logf("Sub(%q, %d, %d) -> panic", v.s, start, length)
+			k.c.Logf("Sub(%q, %d, %d) -> panic", qs(v.s), start, length)
 		}
-		k.c.Witness = fmt.Sprintf("Sub(%q, %d, %d) panics", v.s, start, length)
+		k.c.Witness = fmt.Sprintf("Sub(%q, %d, %d) panics", qs(v.s), start, length)
 		return false
 	}
 	if k.c.Logging() {
-		k.c.Logf("Sub(%q, %d, %d) -> %q", v.s, start, length, got)
+		k.c.Logf("Sub(%q, %d, %d) -> %q", qs(v.s), start, length, qs(got))
 	}
 	k.called(fSub)
 	l := v.n()
@@ -254,8 +269,12 @@ func (k *chk) sub(start, length int) bool {
 		}
 	}
 	k.f[fCompared]++
-	if want := v.wantSub(start, length); got != want {
-		return k.mismatch("sub", fmt.Sprintf("Sub(%q, %d, %d)", v.s, start, length), got, want)
+	want := v.wantSub(start, length)
+	if got != want {
+		return k.mismatch("sub", fmt.Sprintf("Sub(%q, %d, %d)", qs(v.s), start, length), got, want)
+	}
+	if k.keep != nil {
+		k.remember(got, want, fmt.Sprintf("Sub(%q, %d, %d)", qs(v.s), start, length))
 	}
 	return true
 }
@@ -282,26 +301,29 @@ func (k *chk) mask(ms *maskSpec, start, end int) bool {
 	var got string
 	if !k.c.Guard("Mask"+k.sfx, func() { got = strz.Mask(v.s, ms.m, start, end) }) {
 		if k.c.Logging() {
-			k.c.Logf("Mask(%q, %q, %d, %d) -> panic", v.s, ms.m, start, end)
+			k.c.Logf("Mask(%q, %q, %d, %d) -> panic", qs(v.s), qs(ms.m), start, end)
 		}
-		k.c.Witness = fmt.Sprintf("Mask(%q, %q, %d, %d) panics", v.s, ms.m, start, end)
+		k.c.Witness = fmt.Sprintf("Mask(%q, %q, %d, %d) panics", qs(v.s), qs(ms.m), start, end)
 		return false
 	}
 	if k.c.Logging() {
-		k.c.Logf("Mask(%q, %q, %d, %d) -> %q", v.s, ms.m, start, end, got)
+		k.c.Logf("Mask(%q, %q, %d, %d) -> %q", qs(v.s), qs(ms.m), start, end, qs(got))
 	}
 	k.called(fMask)
 	if !v.valid || !utf8.ValidString(ms.m) {
 		return true
 	}
 	l := v.n()
-	call := func() string { return fmt.Sprintf("Mask(%q, %q, %d, %d)", v.s, ms.m, start, end) }
+	call := func() string { return fmt.Sprintf("Mask(%q, %q, %d, %d)", qs(v.s), qs(ms.m), start, end) }
 	k.f[fCompared]++
 	// the first `start` and the last `end` runes cover the whole string: nothing in between
 	if start >= l || end >= l || start+end >= l {
 		k.f[fMaskNoop]++
 		if got != v.s {
 			return k.mismatch("mask", call(), got, v.s)
+		}
+		if k.keep != nil {
+			k.remember(got, v.s, call())
 		}
 		return true
 	}
@@ -343,6 +365,9 @@ func (k *chk) mask(ms *maskSpec, start, end int) bool {
 	if len(got) != len(prefix)+len(mid)+len(suffix) || !strings.HasPrefix(got, prefix) || !strings.HasSuffix(got, suffix) || got[len(prefix):len(got)-len(suffix)] != mid {
 		return k.mismatch("mask", call(), got, prefix+mid+suffix)
 	}
+	if k.keep != nil {
+		k.remember(got, prefix+mid+suffix, call())
+	}
 	return true
 }
 
@@ -351,13 +376,13 @@ func (k *chk) subByDisplay(limit int) bool {
 	var got string
 	if !k.c.Guard("SubByDisplay"+k.sfx, func() { got = strz.SubByDisplay(v.s, limit) }) {
 		if k.c.Logging() {
-			k.c.Logf("SubByDisplay(%q, %d) -> panic", v.s, limit)
+			k.c.Logf("SubByDisplay(%q, %d) -> panic", qs(v.s), limit)
 		}
-		k.c.Witness = fmt.Sprintf("SubByDisplay(%q, %d) panics", v.s, limit)
+		k.c.Witness = fmt.Sprintf("SubByDisplay(%q, %d) panics", qs(v.s), limit)
 		return false
 	}
 	if k.c.Logging() {
-		k.c.Logf("SubByDisplay(%q, %d) -> %q", v.s, limit, got)
+		k.c.Logf("SubByDisplay(%q, %d) -> %q", qs(v.s), limit, qs(got))
 	}
 	k.called(fSubByDisplay)
 	want, cut := v.wantSubByDisplay(limit)
@@ -387,7 +412,10 @@ func (k *chk) subByDisplay(limit int) bool {
 	}
 	k.f[fCompared]++
 	if got != want {
-		return k.mismatch("subbydisplay", fmt.Sprintf("SubByDisplay(%q, %d)", v.s, limit), got, want)
+		return k.mismatch("subbydisplay", fmt.Sprintf("SubByDisplay(%q, %d)", qs(v.s), limit), got, want)
+	}
+	if k.keep != nil {
+		k.remember(got, want, fmt.Sprintf("SubByDisplay(%q, %d)", qs(v.s), limit))
 	}
 	return true
 }
@@ -396,31 +424,35 @@ func (k *chk) revLen() bool {
 	v := k.v
 	var got string
 	if !k.c.Guard("Rev", func() { got = strz.Rev(v.s) }) {
-		k.c.Witness = fmt.Sprintf("Rev(%q) panics", v.s)
+		k.c.Witness = fmt.Sprintf("Rev(%q) panics", qs(v.s))
 		return false
 	}
 	if k.c.Logging() {
-		k.c.Logf("Rev(%q) -> %q", v.s, got)
+		k.c.Logf("Rev(%q) -> %q", qs(v.s), qs(got))
 	}
 	k.called(fRev)
 	var n int
 	if !k.c.Guard("Len", func() { n = strz.Len(v.s) }) {
-		k.c.Witness = fmt.Sprintf("Len(%q) panics", v.s)
+		k.c.Witness = fmt.Sprintf("Len(%q) panics", qs(v.s))
 		return false
 	}
 	if k.c.Logging() {
-		k.c.Logf("Len(%q) -> %d", v.s, n)
+		k.c.Logf("Len(%q) -> %d", qs(v.s), n)
 	}
 	k.called(fLen)
 	if !v.valid {
 		return true
 	}
 	k.f[fCompared] += 2
-	if want := v.wantRev(); got != want {
-		return k.mismatch("rev", fmt.Sprintf("Rev(%q)", v.s), got, want)
+	want := v.wantRev()
+	if got != want {
+		return k.mismatch("rev", fmt.Sprintf("Rev(%q)", qs(v.s)), got, want)
+	}
+	if k.keep != nil {
+		k.remember(got, want, fmt.Sprintf("Rev(%q)", qs(v.s)))
 	}
 	if n != v.n() {
-		k.c.Failf("len", "Len(%q) = %d, the string has %d runes", v.s, n, v.n())
+		k.c.Failf("len", "Len(%q) = %d, the string has %d runes", qs(v.s), n, v.n())
 		return false
 	}
 	return true
@@ -429,6 +461,9 @@ func (k *chk) revLen() bool {
 type pred struct {
 	name string
 	fn   func(rune) bool
+	// pure, when set, is the selection fn makes, without fn's side effects
+	// (fn may call back into strz); the definition is evaluated with it
+	pure func(rune) bool
 }
 
 func (k *chk) removeRunes(p pred) bool {
@@ -446,19 +481,23 @@ func (k *chk) removeRunes(p pred) bool {
 		})
 	}) {
 		if k.c.Logging() {
-			k.c.Logf("RemoveRunes(%q, %s) -> panic", v.s, p.name)
+			k.c.Logf("RemoveRunes(%q, %s) -> panic", qs(v.s), p.name)
 		}
-		k.c.Witness = fmt.Sprintf("RemoveRunes(%q, %s) panics", v.s, p.name)
+		k.c.Witness = fmt.Sprintf("RemoveRunes(%q, %s) panics", qs(v.s), p.name)
 		return false
 	}
 	if k.c.Logging() {
-		k.c.Logf("RemoveRunes(%q, %s) -> %q", v.s, p.name, got)
+		k.c.Logf("RemoveRunes(%q, %s) -> %q", qs(v.s), p.name, qs(got))
 	}
 	k.called(fRemoveRunes)
 	if !v.valid {
 		return true
 	}
-	want, removed, first := v.wantRemove(p.fn)
+	sel := p.fn
+	if p.pure != nil {
+		sel = p.pure
+	}
+	want, removed, first := v.wantRemove(sel)
 	switch {
 	case removed == 0:
 		k.f[fRrNone]++
@@ -477,7 +516,10 @@ func (k *chk) removeRunes(p pred) bool {
 	}
 	k.f[fCompared]++
 	if got != want {
-		return k.mismatch("removerunes", fmt.Sprintf("RemoveRunes(%q, %s)", v.s, p.name), got, want)
+		return k.mismatch("removerunes", fmt.Sprintf("RemoveRunes(%q, %s)", qs(v.s), p.name), got, want)
+	}
+	if k.keep != nil {
+		k.remember(got, want, fmt.Sprintf("RemoveRunes(%q, %s)", qs(v.s), p.name))
 	}
 	return true
 }
@@ -618,17 +660,17 @@ func (k *chk) all(hostileMask bool) bool {
 		mid = v.runes[1+rng.Intn(n-2)]
 	}
 	preds := []pred{
-		{"never", func(rune) bool { return false }},
-		{"always", func(rune) bool { return true }},
-		{"ascii", func(r rune) bool { return r < utf8.RuneSelf }},
-		{"non-ascii", func(r rune) bool { return r >= utf8.RuneSelf }},
-		{"3-byte", func(r rune) bool { return utf8.RuneLen(r) == 3 }},
-		{fmt.Sprintf("==first(%q)", first), func(r rune) bool { return r == first }},
-		{fmt.Sprintf("==last(%q)", last), func(r rune) bool { return r == last }},
-		{fmt.Sprintf("==inner(%q)", mid), func(r rune) bool { return r == mid }},
-		{"==U+FFFD", func(r rune) bool { return r == utf8.RuneError }},
-		{fmt.Sprintf("hash(salt %#x)", salt), func(r rune) bool { return (uint64(r)+1)*salt>>62 == 0 }},
-		{fmt.Sprintf("hash2(salt %#x)", salt), func(r rune) bool { return (uint64(r)+7)*salt>>63 == 0 }},
+		{name: "never", fn: func(rune) bool { return false }},
+		{name: "always", fn: func(rune) bool { return true }},
+		{name: "ascii", fn: func(r rune) bool { return r < utf8.RuneSelf }},
+		{name: "non-ascii", fn: func(r rune) bool { return r >= utf8.RuneSelf }},
+		{name: "3-byte", fn: func(r rune) bool { return utf8.RuneLen(r) == 3 }},
+		{name: fmt.Sprintf("==first(%q)", first), fn: func(r rune) bool { return r == first }},
+		{name: fmt.Sprintf("==last(%q)", last), fn: func(r rune) bool { return r == last }},
+		{name: fmt.Sprintf("==inner(%q)", mid), fn: func(r rune) bool { return r == mid }},
+		{name: "==U+FFFD", fn: func(r rune) bool { return r == utf8.RuneError }},
+		{name: fmt.Sprintf("hash(salt %#x)", salt), fn: func(r rune) bool { return (uint64(r)+1)*salt>>62 == 0 }},
+		{name: fmt.Sprintf("hash2(salt %#x)", salt), fn: func(r rune) bool { return (uint64(r)+7)*salt>>63 == 0 }},
 	}
 	for _, p := range preds {
 		if !k.removeRunes(p) {
